@@ -23,12 +23,13 @@ import (
 // 502, connection error}. It records destination host, scheme, Authorization
 // and the clock for every call.
 type zzFaultNet struct {
-	calls   []zzCall
-	budget  int // symbolic replies are drawn for the first `budget` calls, 200 afterwards
-	realmN  int
-	rotate  bool
-	lastBad map[string]time.Time
-	badN    map[string]int
+	calls         []zzCall
+	budget        int // symbolic replies are drawn for the first `budget` calls, 200 afterwards
+	realmN        int
+	rotate        bool
+	cdnChallenged bool
+	lastBad       map[string]time.Time
+	badN          map[string]int
 }
 
 type zzCall struct {
@@ -43,8 +44,18 @@ var errZZConn = errors.New("zz: connection reset")
 func (n *zzFaultNet) RoundTrip(req *http.Request) (*http.Response, error) {
 	c := zzCall{host: req.URL.Host, scheme: req.URL.Scheme, auth: req.Header.Get("Authorization"), method: req.Method, at: time.Now()}
 	status := 200
-	if len(n.calls) < n.budget {
-		status = []int{200, 401, 404, 429, 500, 502, -1, 1429}[zzInt("reply", 0, 7)]
+	if req.URL.Host == zzCDN {
+		// the redirect target: serves the content or asks for credentials itself
+		if zzBool("cdn_challenges") {
+			status = 401
+			n.cdnChallenged = true
+		}
+	} else if len(n.calls) < n.budget {
+		alphabet := []int{200, 401, 404, 429, 500, 502, -1, 1429}
+		if zzNextForC11 {
+			alphabet = []int{200, 401, 404, 500, -1, 307} // confinement: plus a redirect to a host that is not configured
+		}
+		status = alphabet[zzInt("reply", 0, len(alphabet)-1)]
 	}
 	retryAfter := false
 	if status == 1429 { // 429 that asks for a one second pause
@@ -68,6 +79,9 @@ func (n *zzFaultNet) RoundTrip(req *http.Request) (*http.Response, error) {
 	if retryAfter {
 		h.Set("Retry-After", "1")
 	}
+	if status == 307 {
+		h.Set("Location", "https://"+zzCDN+"/blob")
+	}
 	body := ""
 	if status == 200 {
 		body = "ok"
@@ -75,6 +89,8 @@ func (n *zzFaultNet) RoundTrip(req *http.Request) (*http.Response, error) {
 	}
 	return &http.Response{StatusCode: status, Status: strconv.Itoa(status), Header: h, Body: io.NopCloser(strings.NewReader(body)), Request: req}, nil
 }
+
+const zzCDN = "cdn.example" // a redirect target that is not a configured host
 
 const (
 	zzUp, zzMirror = "up.example", "mirror.example"
@@ -148,7 +164,13 @@ func ZZC12_next() {
 	resp, err := c.Do(context.Background(), &Req{Host: zzUp, Method: method, Repository: "repo", Path: "manifests/tag", NoMirrors: noMirrors, IgnoreErr: ignoreErr, Headers: hdrs})
 	zzReach("do_returned")
 	// (i) bounded attempts
-	zzAssert(len(net.calls) <= R+2, "attempts_bounded_by_retry_limit")
+	attempts := 0
+	for _, cl := range net.calls {
+		if cl.host != zzCDN { // a redirect hop is part of the attempt that was redirected
+			attempts++
+		}
+	}
+	zzAssert(attempts <= R+2, "attempts_bounded_by_retry_limit")
 	// (ii) recovery: the loop only gives up for a reason
 	faults := 0
 	for _, cl := range net.calls {
@@ -207,6 +229,15 @@ func ZZC12_next() {
 				zzAssert(cl.scheme == "http", "mirror_scheme_follows_its_tls_setting")
 			} else {
 				zzAssert(cl.scheme == "https", "C11_tls_host_addressed_over_https")
+			}
+		} else if cl.host == zzCDN {
+			zzReach("redirect_followed")
+			leaked := strings.Contains(cl.auth, secret) || strings.Contains(cl.auth, mirSecret)
+			if net.cdnChallenged {
+				// (known finding: a foreign host that challenges is answered with the registry's credentials)
+				zzAssert(!leaked, "C11_credentials_not_sent_to_a_redirect_target_that_challenged")
+			} else {
+				zzAssert(!leaked, "C11_credentials_not_sent_to_a_redirect_target")
 			}
 		} else {
 			zzAssert(cl.host == zzUp, "requests_go_only_to_configured_hosts")
